@@ -256,7 +256,7 @@ def race_blocks(logpaths):
     return len(blocks), dedup
 
 
-def finish(prop, tier, seed, level, merged, t0, extra_cov=None, min_evals=1):
+def finish(prop, tier, seed, level, merged, t0, extra_cov=None, min_evals=1, replay=False):
     """Apply known findings, write evidence and replays, print verdict lines, return exit code."""
     known = [k for k in known_findings() if k.get("property") == prop]
     known_keys = {k["key"]: k for k in known if k.get("status") == "known"}
@@ -307,8 +307,13 @@ def finish(prop, tier, seed, level, merged, t0, extra_cov=None, min_evals=1):
         "assumptions": merged["assumptions"], "wall_s": round(time.time() - t0, 2), "violations": len(seen_keys),
     }
     os.makedirs(os.path.join(VERIF, "evidence"), exist_ok=True)
-    with open(os.path.join(VERIF, "evidence", f"{prop}.json"), "w") as f:
+    evname = f"{prop}.replay.json" if replay else f"{prop}.json"
+    with open(os.path.join(VERIF, "evidence", evname), "w") as f:
         json.dump(ev, f, indent=1, default=str)
+    if replay:
+        if rc == 0:
+            print(f"REPLAY property={prop}: the recorded case no longer violates")
+        return rc
     if rc == 0 and (cov["evaluations"] < min_evals or cov["distinct_nontrivial"] < 2):
         log(f"ERROR: run observed too little (evaluations={cov['evaluations']}, distinct={cov['distinct_nontrivial']}); not a verdict")
         return 2
